@@ -589,6 +589,7 @@ func (s *simSource) Uint64() uint64 {
 
 // NewRandSource replaces rand.NewSource: the seed argument (wall-clock derived
 // in the agent) is ignored; the stream comes from the run's choice stream.
+//go:norace
 func NewRandSource(seed int64) rand.Source {
 	if S == nil {
 		return rand.NewSource(seed)
